@@ -291,6 +291,13 @@ func (x *run) checkC11() *Failure {
 		if d <= 0 {
 			continue
 		}
+		if rec := x.R.ScopeRecOf(d); rec == nil || !rec.Created {
+			// a scope whose creation failed (an initializer failed, or the creation
+			// overlapped the parent's Close and reported the disposed error) was never a
+			// descendant anybody could use: its leftovers are disposed by the failing
+			// CreateScope itself, whenever that returns
+			continue
+		}
 		for _, a := range x.R.Ancestors(d) {
 			if a == d {
 				continue
@@ -308,6 +315,9 @@ func (x *run) checkC11() *Failure {
 	for o, items := range owners {
 		if o == -1 {
 			continue
+		}
+		if rec := x.R.ScopeRecOf(o); o > 0 && (rec == nil || !rec.Created) {
+			continue // leftovers of a failed creation, see above
 		}
 		for _, it := range items {
 			for _, s := range owners[-1] {
